@@ -1637,3 +1637,31 @@ def sub_prune_rule(rep, F):
                 ok = True
         if not ok:
             rep.violation("SUB-prune", "MultiAsset::sub|%s" % (c.to or "").rsplit("::", 1)[-1], "MultiAsset::sub removes a whole policy entry on a path that is not decided by the size of that policy's remaining assets: {P: {A: 5, B: 7}} - {P: {A: 5}} loses B as well, so a collateral return naming only A is accepted although the inputs still hold 7 B, and the change of a transaction that spends part of a policy drops the rest of it", {"line": c.line})
+
+
+def signer_amount_rule(rep, F):
+    """SIGNER-amount: who must sign does not depend on how much is moved"""
+    rep.rule("SIGNER-amount", "the signer collectors of the builders (get_required_signers of every sub-builder, TransactionBuilder::count_needed_vkeys, and their closures) never branch on a predicate computed from an amount (a call on BigNum / Value / Int - is_zero, compare, <, == - or an integer comparison of an amount field): a withdrawal, certificate or vote needs its key witness whatever the coin is (a 0-lovelace withdrawal, the usual way to run a staking script, still requires the signature of a key-locked reward account), so an amount test here makes the estimated fee one key witness short")
+    import mustpass as _mp
+    import fieldflow as _ff
+    AM = re.compile(r"(numeric::big_num::BigNum|utils::Value|numeric::int::Int|MultiAsset)\b")
+    n = 0
+    for fid, fn in F.fns.items():
+        base = fid.split("::{closure")[0]
+        if "src/builders" not in fn["file"] or base.rsplit("::", 1)[-1] not in ("get_required_signers", "count_needed_vkeys"):
+            continue
+        org = _ff.Origins(F, fid)
+        for bi, bb in enumerate(fn["bbs"]):
+            if bb["c"] or bb["t"][1] != "switch":
+                continue
+            n += 1
+            rep.inst("SIGNER-amount")
+            d = _mp.describe_cond(F, fid, bi, org)
+            bad = None
+            if d["kind"] == "call" and (AM.search(d["callee"]) or AM.search(d.get("ga") or "")) and not d["callee"].endswith("Try>::branch"):
+                bad = d["callee"]
+            elif d["kind"] == "bin" and any(x.startswith("field:") and AM.search(x) for x in d["lhs"] + d["rhs"]):
+                bad = "comparison %s on an amount field" % d["op"]
+            if bad:
+                rep.violation("SIGNER-amount", "%s|%s" % (F.key(base), H_short(bad)), "%s decides whether a signer is required with %s: the required key witnesses of an entry do not depend on its amount - with a 0-lovelace withdrawal from a key-locked reward account the body still needs that key's signature, the fake witness set has one vkey witness too few and min_fee / validate_fee come out 44 lovelace x ~100 bytes short" % (F.key(base), bad), {"line": facts.loc_line(bb["t"][0])})
+    rep.floor("branch points in signer collectors", 12, n)
